@@ -452,18 +452,27 @@ pub fn released(c: Cw, n: usize, old_g: (usize, usize)) -> bool {
     }
 }
 
+/// The pointer an ArcBorrow / OffsetArc holds, read through its BIT PATTERN (C11: "an OffsetArc's
+/// or ArcBorrow's bit pattern is the value's address") rather than through the private field, so
+/// a change of the field's type (NonNull<T> <-> *const T <-> &T) does not break the contracts.
+pub fn bptr<T: ?Sized>(b: &crate::ArcBorrow<'_, T>) -> *const T {
+    unsafe { *(b as *const crate::ArcBorrow<'_, T> as *const *const T) }
+}
+pub fn optr<T>(o: &crate::OffsetArc<T>) -> *const T {
+    unsafe { *(o as *const crate::OffsetArc<T> as *const *const T) }
+}
 // the same, seen through an OffsetArc (its word is the payload address)
 pub fn ocw<T>(o: &crate::OffsetArc<T>) -> Cw {
-    (o.ptr.as_ptr() as *const u8).wrapping_sub(spec_off(core::mem::align_of::<T>())) as Cw
+    (optr(o) as *const u8).wrapping_sub(spec_off(core::mem::align_of::<T>())) as Cw
 }
 pub fn obase<T>(o: &crate::OffsetArc<T>) -> usize {
-    addr(o.ptr.as_ptr() as *const T) - spec_off(core::mem::align_of::<T>())
+    addr(optr(o)) - spec_off(core::mem::align_of::<T>())
 }
 pub fn ocnt<T>(o: &crate::OffsetArc<T>) -> usize {
     rd(ocw(o))
 }
 pub fn ovalid<T>(o: &crate::OffsetArc<T>) -> bool {
-    addr(o.ptr.as_ptr() as *const T) >= spec_off(core::mem::align_of::<T>()) && glive_at(obase(o)) && ocnt(o) >= 1
+    addr(optr(o)) >= spec_off(core::mem::align_of::<T>()) && glive_at(obase(o)) && ocnt(o) >= 1
 }
 /// build a handle through the library's own constructor, then make the count symbolic
 pub fn mk<T>(v: T, n: usize) -> Arc<T> {
@@ -595,6 +604,17 @@ impl Clone for Cc {
             CLONES += 1;
         }
         Cc(self.0)
+    }
+}
+
+/// ZERO-SIZED payload whose Clone is observable
+pub struct Zc;
+impl Clone for Zc {
+    fn clone(&self) -> Self {
+        unsafe {
+            CLONES += 1;
+        }
+        Zc
     }
 }
 
